@@ -281,6 +281,38 @@ def run(ctx) -> Result:
     return res
 
 
+def _long_texts() -> List[str]:
+    import random as _random
+    rnd = _random.Random(7)
+    alphabet = "[]{}, :1a "
+    out = ["[" + ", ".join("{%d}" % i for i in range(12)) + "]", "[" * 30, "{" * 25 + "}" * 25, "[{1}, " * 9, ", " * 30,
+           "r : " * 6 + "[{1}]", "[{" + "1, " * 20 + "}]", "[[" + "a], [" * 10 + "b]]", "]" * 40, "[{1}]" * 10]
+    for n in (6, 8, 12, 20, 35, 60):
+        for _ in range(12):
+            out.append("".join(rnd.choice(alphabet) for _ in range(n)))
+    return out
+
+
+LONG_STRINGS = _long_texts()
+_LONG_CACHE: Dict[int, list] = {}
+
+
+def _long_strings_outcomes(proj: Project):
+    if id(proj) not in _LONG_CACHE:
+        w = World(proj)
+        w.rt.funcs["print"] = lambda ev, call: None
+        bad = []
+        for s_ in LONG_STRINGS:
+            kind, info = classify(w, s_)
+            if kind == "unsupported":
+                raise AnalysisError(f"parser evaluation hit an unsupported construct on {s_!r}: {info}")
+            if not (kind == "ok" or (kind == "raise" and info == "ValueError")):
+                bad.append((s_, kind, info))
+        _LONG_CACHE.clear()
+        _LONG_CACHE[id(proj)] = bad
+    return _LONG_CACHE[id(proj)]
+
+
 def _check_scanner(res: Result, proj: Project, parse):
     whiles = [n for n in ast.walk(parse.node) if isinstance(n, ast.While)]
     ok_all = bool(whiles)
@@ -316,9 +348,19 @@ def _check_scanner(res: Result, proj: Project, parse):
         if not progress:
             ok_all = False
             detail = f"loop at line {wl.lineno}: no guard variable is re-assigned from find(c, v + 1 ...) on every iteration"
-    res.check(ok_all, "P2", "parse_ranking_with_ties:scanner-progress", parse.loc(whiles[0]) if whiles else parse.loc(),
-              ok_detail="each iteration moves a guard variable to find(c, old + 1, ...) : strictly increasing or -1",
-              bad_detail=detail)
+    if ok_all:
+        res.ok("P2", "parse_ranking_with_ties:scanner-progress", parse.loc(whiles[0]),
+               "each iteration moves a guard variable to find(c, old + 1, ...) : strictly increasing or -1")
+    else:
+        # the scanner is not written in the idiom this rule recognises (no loop here, another kind of loop, a helper):
+        # that is no defect. Progress is then decided by evaluation on longer texts than P1's - every outcome must be a
+        # parse or a ValueError within the loop bound.
+        probs = _long_strings_outcomes(proj)
+        res.check(not probs, "P2", "parse_ranking_with_ties:scanner-progress", parse.loc(),
+                  ok_detail=f"scanner idiom not recognised ({detail}); {len(LONG_STRINGS)} longer texts (up to 60 characters) "
+                            f"all parsed or refused within the loop bound",
+                  bad_detail=f"{probs[0][0]!r} -> " + ("does not terminate" if probs[0][1] == "loop" else f"{probs[0][1]} {probs[0][2]}")
+                  if probs else "")
     bad_sub = None
     for f in (parse, proj.func("corankco.utils", "get_rankings_from_file")):
         in_annotation = set()
@@ -363,9 +405,16 @@ def _check_scanner(res: Result, proj: Project, parse):
                 if guarded and idx == "0":
                     continue
                 bad_sub = bad_sub or (f, n)
-    res.check(bad_sub is None, "P2", "parser:no-unguarded-index", parse.loc(),
-              ok_detail="only slices, split(...)[-1] and length-guarded [0] are used",
-              bad_detail=f"{bad_sub[0].short} line {bad_sub[1].lineno}: `{src(bad_sub[1])}` can raise IndexError" if bad_sub else "")
+    if bad_sub is None:
+        res.ok("P2", "parser:no-unguarded-index", parse.loc(), "only slices, split(...)[-1] and length-guarded [0] are used")
+    else:
+        # a subscript this rule cannot prove safe by its shape: decided by evaluation (P1 on all short strings, and the
+        # longer texts here) - an IndexError that can escape shows there
+        probs = _long_strings_outcomes(proj)
+        res.check(not probs, "P2", "parser:no-unguarded-index", parse.loc(),
+                  ok_detail=f"`{src(bad_sub[1])[:40]}` ({bad_sub[0].short} line {bad_sub[1].lineno}) is not one of the recognised safe "
+                            f"forms; no IndexError escapes on P1's strings nor on {len(LONG_STRINGS)} longer texts",
+                  bad_detail=f"{probs[0][0]!r} -> {probs[0][1]} {probs[0][2]}" if probs else "")
 
 
 def _own_continue(loop) -> bool:
